@@ -128,6 +128,10 @@ func (c *Ctx) Pick(q, t int) int {
 func (c *Ctx) Report(f *Finding) {
 	c.mu.Lock()
 	defer c.mu.Unlock()
+	if f.Clause == "inconclusive" {
+		c.Inconclusive = append(c.Inconclusive, f.Trigger+": "+f.Detail)
+		return
+	}
 	if !f.Concerns(c.Prop) {
 		c.other[strings.Join(f.Props, ",")+" "+f.Sig()]++
 		return
